@@ -49,6 +49,7 @@ struct World {
     svcs: Vec<VerifService>,
     kas: Vec<bool>,
     names: Vec<ProtocolName>,
+    fallbacks: Vec<ProtocolName>,
     table: HashMap<ProtocolName, ProtocolContext>,
     counter: Arc<AtomicUsize>,
     cap: usize,
@@ -59,8 +60,8 @@ struct World {
     peer_of: BTreeMap<u64, u64>,
     sets: BTreeMap<u64, ProtocolSet>,
     probes: BTreeMap<u64, VerifAliveProbe>,
-    /// commands taken by the connection task: (service, id) -> (connection, permit)
-    flight: BTreeMap<(usize, u64), (u64, VerifPermit)>,
+    /// commands taken by the connection task: (service, id) -> (connection, permit, keep_alive of the command)
+    flight: BTreeMap<(usize, u64), (u64, VerifPermit, bool)>,
     subs: BTreeMap<(usize, u64), Vec<Substream>>,
     /// generator's view: open connections in establishment order, ids returned and not yet answered
     live: Vec<(u64, u64)>,
@@ -75,11 +76,13 @@ impl World {
         let counter = Arc::new(AtomicUsize::new(n0 as usize));
         let mut svcs = Vec::new();
         let mut names = Vec::new();
+        let mut fallbacks = Vec::new();
         let mut table = HashMap::new();
         for (i, (ka, t)) in cfg.iter().enumerate() {
             let svc = VerifService::new_shared(Duration::from_millis(*t), *ka, counter.clone(), 64, i);
             let (name, ctx) = svc.protocol_entry();
             names.push(name.clone());
+            fallbacks.push(svc.fallback_name());
             table.insert(name, ctx);
             svcs.push(svc);
         }
@@ -89,6 +92,7 @@ impl World {
             svcs,
             kas: cfg.iter().map(|x| x.0).collect(),
             names,
+            fallbacks,
             table,
             counter,
             cap,
@@ -245,14 +249,19 @@ impl World {
                 self.returned.clear();
             }
             3 => {
-                let (i, p, c) = (op[2] as usize, op[3], op[4]);
+                // what tcp/connection.rs does for an inbound yamux stream: a permit, the table of
+                // negotiable names with their keep-alive flags (built by ProtocolSet::new), the
+                // negotiated name (main or fallback) decides whether the substream keeps a permit
+                let (i, p, c, m) = (op[2] as usize, op[3], op[4], op[5] != 0);
                 let peer = self.peer(p);
                 let permit = self.sets.get_mut(&c).and_then(|s| s.try_get_permit());
                 match permit {
                     Some(permit) => {
-                        let lifetime = if self.kas[i] { Some(permit.clone()) } else { None };
+                        let name = if m { self.names[i].clone() } else { self.fallbacks[i].clone() };
+                        let table = self.sets.get(&c).unwrap().protocols_with_keep_alives();
+                        let keep = table.get(&name).map(|k| *k == litep2p::protocol::SubstreamKeepAlive::Yes).unwrap_or(false);
+                        let lifetime = if keep { Some(permit.clone()) } else { None };
                         let sub = self.svcs[i].make_substream(peer, 0, lifetime);
-                        let name = self.names[i].clone();
                         let set = self.sets.get_mut(&c).unwrap();
                         let _ = set.report_substream_open(peer, name, Direction::Inbound, sub, permit).await;
                         conn_of_sub = Some((i, c));
@@ -261,14 +270,15 @@ impl World {
                 }
             }
             4 => {
-                let (i, id) = (op[2] as usize, op[3]);
+                // an outbound substream keeps a permit iff the OpenSubstream command said keep_alive
+                let (i, id, m) = (op[2] as usize, op[3], op[4] != 0);
                 match self.flight.remove(&(i, id)) {
-                    Some((c, permit)) if self.sets.contains_key(&c) => {
+                    Some((c, permit, keep)) if self.sets.contains_key(&c) => {
                         let p = self.peer_of.get(&c).copied().unwrap_or(0);
                         let peer = self.peer(p);
-                        let lifetime = if self.kas[i] { Some(permit.clone()) } else { None };
+                        let lifetime = if keep { Some(permit.clone()) } else { None };
                         let sub = self.svcs[i].make_substream(peer, id as usize, lifetime);
-                        let name = self.names[i].clone();
+                        let name = if m { self.names[i].clone() } else { self.fallbacks[i].clone() };
                         let set = self.sets.get_mut(&c).unwrap();
                         let _ = set
                             .report_substream_open(peer, name, Direction::Outbound(SubstreamId::from(id as usize)), sub, permit)
@@ -281,7 +291,7 @@ impl World {
             5 => {
                 let (i, id) = (op[2] as usize, op[3]);
                 match self.flight.remove(&(i, id)) {
-                    Some((c, _permit)) if self.sets.contains_key(&c) => {
+                    Some((c, _permit, _)) if self.sets.contains_key(&c) => {
                         let name = self.names[i].clone();
                         let set = self.sets.get_mut(&c).unwrap();
                         let _ = set
@@ -351,10 +361,10 @@ impl World {
             nres = match self.sets.get_mut(&c) {
                 None => [5, 0, 0],
                 Some(set) => match futures::poll!(set.next()) {
-                    Poll::Ready(Some(ProtocolCommand::OpenSubstream { substream_id, permit, protocol, .. })) => {
+                    Poll::Ready(Some(ProtocolCommand::OpenSubstream { substream_id, permit, protocol, keep_alive, .. })) => {
                         let id = substream_id.verif_as_usize() as u64;
                         let i = self.names.iter().position(|n| *n == protocol).unwrap_or(99);
-                        self.flight.insert((i, id), (c, permit));
+                        self.flight.insert((i, id), (c, permit, keep_alive == litep2p::protocol::SubstreamKeepAlive::Yes));
                         self.returned.retain(|x| *x != (i, id));
                         [1, i as u64, id]
                     }
@@ -381,8 +391,9 @@ fn op_len(tag: u64) -> Option<usize> {
     Some(match tag {
         0 => 0,
         1 | 2 => 2,
-        3 => 3,
-        4..=8 | 12 | 14 => 2,
+        3 => 4,
+        4 => 3,
+        5..=8 | 12 | 14 => 2,
         15 => 1,
         _ => return None,
     })
@@ -508,8 +519,14 @@ impl Gen {
                     }
                 }
                 14..=22 => any_live.get(r.below(any_live.len().max(1) as u64) as usize).map(|k| vec![dt, 2, k.0, k.1]),
-                23..=30 => any_live.get(r.below(any_live.len().max(1) as u64) as usize).map(|k| vec![dt, 3, i, k.0, k.1]),
-                31..=42 => flight.get(r.below(flight.len().max(1) as u64) as usize).map(|k| vec![dt, 4, k.0 as u64, k.1]),
+                23..=30 => {
+                    let m = r.chance(50) as u64;
+                    any_live.get(r.below(any_live.len().max(1) as u64) as usize).map(|k| vec![dt, 3, i, k.0, k.1, m])
+                }
+                31..=42 => {
+                    let m = r.chance(60) as u64;
+                    flight.get(r.below(flight.len().max(1) as u64) as usize).map(|k| vec![dt, 4, k.0 as u64, k.1, m])
+                }
                 43..=48 => flight.get(r.below(flight.len().max(1) as u64) as usize).map(|k| vec![dt, 5, k.0 as u64, k.1]),
                 49 => Some(vec![dt, 6, i, p]),
                 50..=64 => Some(vec![dt, 7, i, p]),
@@ -536,7 +553,7 @@ impl Gen {
                     let pool = if !livec.is_empty() && r.chance(90) { livec } else { cs };
                     pool.get(r.below(pool.len().max(1) as u64) as usize).map(|c| vec![dt, 15, *c])
                 }
-                93..=94 => Some(vec![dt, 4, i, r.below(12)]),
+                93..=94 => Some(vec![dt, 4, i, r.below(12), 1]),
                 _ => Some(vec![dt, 0]),
             };
             if let Some(op) = op {
@@ -644,7 +661,7 @@ pub fn gen_one(rt: &tokio::runtime::Runtime, mut rng: Rng, timed: bool, thorough
         script.push(vec![0, 1, 0, 1]);
         script.push(vec![rng.pick(&[0u64, 200]), 1, 0, 2]);
         match rng.below(3) {
-            0 => script.push(vec![rng.pick(&[0u64, 200]), 3, rng.below(nsvc), 0, 2]),
+            0 => script.push(vec![rng.pick(&[0u64, 200]), 3, rng.below(nsvc), 0, 2, rng.below(2)]),
             1 => script.push(vec![rng.pick(&[0u64, 200]), 7, rng.below(nsvc), 0]),
             _ => {}
         }
